@@ -56,4 +56,19 @@ CLAIMS = {
                 'rules/c02.py (allowed newSlot/extendLength callers with reasons).  Allocation failure is outside the quantifier.',
         'technique': 'CFG dominance (edge-cut) + path rules + who-may-call over resolved callees + symbolic stack-offset analysis of opcode handlers',
     },
+    'C08': {
+        'text': 'Decides that no instruction reachable from any shaping / query / label / justification / line-break / feature-value API '
+                'entry writes memory that outlives the call and is visible to a later call, except the three documented lazy caches, '
+                'whose stores are shown to be dominated by their empty-slot guard: every store / memcpy / memset / atomic of the 700+ '
+                'reachable functions is classified by the owner of the memory written (whole-library typed-pointer LLVM IR, pointer chains '
+                'followed through GEPs, loads, phis, calls, with interprocedural binding of parameters), and the write set on face/font '
+                'owned memory and on globals must be empty; writes through API parameters must be to documented out-parameters.  Side '
+                'rules: no mutable global or guarded static reachable, SHARED classes hold no pointer to per-call objects, features are '
+                'copied by value, const-cast inventory.  Because a history can influence a later call only through such memory, this '
+                'covers all API interleavings.  Equality of two result dumps is NOT decided (runtime values).',
+        'note': 'Trusted: clang 14 code generator (-O0 + sroa/mem2reg) and typed pointers, tools/grir, rules/eff.py ownership lattice, the '
+                'SHARED / PER-CALL class partition (total: an unclassified struct is exit 2), the three-row lazy-cache table with reasons, '
+                'the out-parameter table.  The application must not modify the table bytes it lent to the face.',
+        'technique': 'interprocedural write-effect / ownership analysis over linked LLVM IR (custom LLVM tool) joined with AST dominance facts',
+    },
 }
